@@ -573,6 +573,15 @@ func (ex *Exec) forkLookup(s *astate, fr *aframe, x *ssa.Lookup) []*astate {
 		if i != len(entries)-1 {
 			c = s.clone()
 		}
+		excluded := false
+		for _, x := range s.excl[src] {
+			if x == int64(e.key) {
+				excluded = true
+			}
+		}
+		if excluded {
+			continue // the path already knows the key is not this one
+		}
 		if rg, okR := c.rangeOf(key.Bits, signed); okR && (int64(e.key) < rg.lo || int64(e.key) > rg.hi) {
 			if c == s {
 				// keep s alive for the caller's bookkeeping: mark infeasible by an empty step
@@ -861,4 +870,108 @@ func srcBitsNoReg(name string, w int) BitVec {
 		out[i] = Bit{Kind: BSrc, Src: name, Idx: i}
 	}
 	return out
+}
+
+// constSliceOf: the elements of a package-level slice variable that is assigned exactly once, in
+// init, a composite literal of constants, and through which nothing in its package writes.
+var constSliceCache = map[*ssa.Global][]ssa.Value{}
+var constSliceBad = map[*ssa.Global]bool{}
+
+func constSliceOf(g *ssa.Global) ([]ssa.Value, bool) {
+	if e, ok := constSliceCache[g]; ok {
+		return e, true
+	}
+	if constSliceBad[g] || g.Pkg == nil {
+		return nil, false
+	}
+	bad := func() ([]ssa.Value, bool) { constSliceBad[g] = true; return nil, false }
+	var made ssa.Value
+	var fns []*ssa.Function
+	for _, mem := range g.Pkg.Members {
+		switch m := mem.(type) {
+		case *ssa.Function:
+			fns = append(append(fns, m), m.AnonFuncs...)
+		case *ssa.Type:
+			for _, ms := range []*types.MethodSet{g.Pkg.Prog.MethodSets.MethodSet(m.Type()), g.Pkg.Prog.MethodSets.MethodSet(types.NewPointer(m.Type()))} {
+				for i := 0; i < ms.Len(); i++ {
+					if f := g.Pkg.Prog.MethodValue(ms.At(i)); f != nil {
+						fns = append(fns, f)
+					}
+				}
+			}
+		}
+	}
+	for _, f := range fns {
+		for _, b := range f.Blocks {
+			for _, in := range b.Instrs {
+				switch x := in.(type) {
+				case *ssa.Store:
+					if x.Addr == ssa.Value(g) {
+						if f.Name() != "init" || made != nil {
+							return bad()
+						}
+						made = x.Val
+					}
+				case *ssa.UnOp:
+					// a load of g: its elements may be read, not addressed for writing
+					if x.Op == token.MUL && x.X == ssa.Value(g) {
+						for _, r := range Referrers(x) {
+							switch y := r.(type) {
+							case *ssa.IndexAddr:
+								for _, r2 := range Referrers(y) {
+									if st, isSt := r2.(*ssa.Store); isSt && st.Addr == ssa.Value(y) {
+										return bad()
+									}
+									if _, isCall := r2.(ssa.CallInstruction); isCall {
+										return bad()
+									}
+								}
+							case *ssa.Call, *ssa.Go, *ssa.Defer:
+								// handed to a callee: only builtins (len, cap) and known readers
+								if c, isC := y.(*ssa.Call); !isC || !isBuiltinCall(c, "len", "cap") {
+									return bad()
+								}
+							}
+						}
+					}
+				}
+			}
+		}
+	}
+	sl, ok := made.(*ssa.Slice)
+	if !ok || sl.Low != nil || sl.High != nil {
+		return bad()
+	}
+	al, ok := sl.X.(*ssa.Alloc)
+	if !ok {
+		return bad()
+	}
+	elems, ok := ArrayLitElems(al)
+	if !ok {
+		return bad()
+	}
+	for i, e := range elems {
+		if e == nil {
+			continue // zero
+		}
+		if _, isK := e.(*ssa.Const); !isK {
+			return bad()
+		}
+		_ = i
+	}
+	constSliceCache[g] = elems
+	return elems, true
+}
+
+func isBuiltinCall(c *ssa.Call, names ...string) bool {
+	b, ok := c.Call.Value.(*ssa.Builtin)
+	if !ok {
+		return false
+	}
+	for _, n := range names {
+		if b.Name() == n {
+			return true
+		}
+	}
+	return false
 }
